@@ -997,6 +997,7 @@ func mutationStream(r *vh.RNG, rounds int, maxN int, coqEvery int, coqMaxN int, 
 		}
 	}
 	mergeSink(s, "mutation")
+	rep.Write(cfg)
 }
 
 // ---------- every tree shape (skeleton) for small transaction counts ----------
@@ -1131,6 +1132,7 @@ func skeletonFamily(r *vh.RNG, maxN int, coqPerN int) {
 		s.hist[fmt.Sprintf("skel:shapes_n%d", n)] = len(sk)
 	}
 	mergeSink(s, "skeleton")
+	rep.Write(cfg)
 }
 
 // ---------- deep trees: proofs for a few positions of very large declared counts ----------
@@ -1258,6 +1260,7 @@ func deepFamily(r *vh.RNG, perCount int, coqEvery int) {
 		}
 	}
 	mergeSink(s, "deep")
+	rep.Write(cfg)
 }
 
 // ---------- messages whose traversal meets very many problems ----------
@@ -1332,6 +1335,7 @@ func manyProblems(r *vh.RNG, coqEvery int) {
 		}
 	}
 	mergeSink(s, "many")
+	rep.Write(cfg)
 }
 
 // ---------- fixed edge cases ----------
@@ -1590,6 +1594,22 @@ func main() {
 
 	nodeHashCases(rng.Fork("nodehash"), 6)
 	edgeCases(rng.Fork("edge"))
+	// the cheap round-3 families run first and the report is written after every family: a change that makes
+	// extraction slow enough for the big sweeps to hit the driver's time limit is still reported
+	// (bin/check reads report.json whatever the exit code)
+	switch {
+	case cfg.Search:
+		goroutineFamily(rng.Fork("goroutines"), 400, 16)
+		runPlain(8)
+	case cfg.Thorough():
+		goroutineFamily(rng.Fork("goroutines"), 200, 16)
+		runPlain(4)
+	default:
+		goroutineFamily(rng.Fork("goroutines"), 60, 8)
+		runPlain(1)
+	}
+	checkLimit("after the first families")
+	vh.Must(rep.Write(cfg))
 
 	allBytes := make([]int, 256)
 	for i := range allBytes {
@@ -1614,8 +1634,6 @@ func main() {
 		mutationStream(rng.Fork("mut"), 4000, 5000, 1<<30, 0, 0)
 		deepFamily(rng.Fork("deep"), 40, 0)
 		manyProblems(rng.Fork("many"), 0)
-		goroutineFamily(rng.Fork("goroutines"), 400, 16)
-		runPlain(8)
 	case cfg.Thorough():
 		// count <= 7, all hash lists over three letters, all flag strings of <= 2 bytes
 		exhaustive("scope{A,B,H(A,A)}", []pmtref.Hash{A, B, AA}, 7, upTo, allBytes, 3, rng.Fork("ex1"))
@@ -1624,8 +1642,6 @@ func main() {
 		mutationStream(rng.Fork("mut"), 3000, 5000, 151, 4, 120)
 		deepFamily(rng.Fork("deep"), 20, 97)
 		manyProblems(rng.Fork("many"), 131)
-		goroutineFamily(rng.Fork("goroutines"), 200, 16)
-		runPlain(4)
 	default:
 		// quick: the same scope with the second flag byte restricted to 8 values (all 2-byte strings in the thorough tier)
 		second := []int{0, 1, 3, 0x15, 0x2a, 0x7f, 0x80, 0xff}
@@ -1634,8 +1650,6 @@ func main() {
 		mutationStream(rng.Fork("mut"), 600, 3000, 67, 4, 100)
 		deepFamily(rng.Fork("deep"), 4, 61)
 		manyProblems(rng.Fork("many"), 211)
-		goroutineFamily(rng.Fork("goroutines"), 60, 8)
-		runPlain(1)
 	}
 	checkLimit("at the end of the run")
 	rep.Extra["exhaustive_and_mutation_seconds"] = time.Since(t0).Seconds()
